@@ -15,6 +15,15 @@ type modLoc struct {
 	Fields []int  // cells holding structs: only these top-level fields (nil = whole cell)
 	Lo, Hi string // arrays: absolute index range [Lo,Hi); "" = whole array
 	Src    string
+	Cond   string // "" or a condition (pre-state) under which the location is modified
+}
+
+// is: the formula "r is this location's reference (and the location is active)"
+func (m modLoc) is(r string) string {
+	if m.Cond == "" || m.Cond == "true" {
+		return eq(r, m.Ref)
+	}
+	return and(m.Cond, eq(r, m.Ref))
 }
 
 func (m modLoc) whole() bool { return m.Fields == nil && m.Lo == "" }
@@ -25,6 +34,16 @@ func (env *specEnv) lvalue(e *Expr) []modLoc {
 	switch e.Op {
 	case "paren":
 		return env.lvalue(e.Args[0])
+	case "when":
+		locs := env.lvalue(e.Args[0])
+		c := env.tr(e.Args[1])
+		if c.Sort != "Bool" {
+			sfail("modifies ... when: condition is not boolean")
+		}
+		for i := range locs {
+			locs[i].Cond = and(locs[i].Cond, c.T)
+		}
+		return locs
 	case "deref":
 		p := env.tr(e.Args[0])
 		pt, ok := p.Typ.Underlying().(*types.Pointer)
@@ -123,7 +142,7 @@ func (vc *VC) frameFacts(c *Component, hn, ho, bound string, locs []modLoc) []st
 	// (no lower bound: negative references are never allocated or written)
 	guards := []string{"(< " + r + " " + bound + ")"}
 	for _, l := range mine {
-		guards = append(guards, not(eq(r, l.Ref)))
+		guards = append(guards, not(l.is(r)))
 	}
 	out = append(out, fmt.Sprintf("(forall ((%s Int)) (! (=> %s (= (select %s %s) (select %s %s))) :pattern ((select %s %s))))",
 		r, and(guards...), hn, r, ho, r, hn, r))
@@ -156,7 +175,7 @@ func (vc *VC) frameFacts(c *Component, hn, ho, bound string, locs []modLoc) []st
 				distinct = distinct[:0]
 				for j, m := range mine {
 					if j != i && coversField(m, fi) {
-						distinct = append(distinct, not(eq(l.Ref, m.Ref)))
+						distinct = append(distinct, not(m.is(l.Ref)))
 					}
 				}
 				out = append(out, implies(and(append([]string{"(< " + l.Ref + " " + bound + ")"}, distinct...)...),
@@ -166,7 +185,7 @@ func (vc *VC) frameFacts(c *Component, hn, ho, bound string, locs []modLoc) []st
 			// array range
 			for j, m := range mine {
 				if j != i {
-					distinct = append(distinct, not(eq(l.Ref, m.Ref)))
+					distinct = append(distinct, not(m.is(l.Ref)))
 				}
 			}
 			vc.ctr++
@@ -182,24 +201,24 @@ func (vc *VC) frameFacts(c *Component, hn, ho, bound string, locs []modLoc) []st
 // allowedByFrame: formula stating that writing (comp, ref, [field | idx]) is
 // permitted by the top-level function's modifies clause (or the target is fresh).
 func (vc *VC) allowedByFrame(c *Component, ref string, field int, idx string) string {
-	top := vc.topFrame
-	alts := []string{"(>= " + ref + " alloc0)"}
-	for _, l := range top.modLocs {
+	locs, bound := vc.frameCtx()
+	alts := []string{"(>= " + ref + " " + bound + ")"}
+	for _, l := range locs {
 		if l.Comp.Name != c.Name {
 			continue
 		}
 		switch {
 		case l.whole():
-			alts = append(alts, eq(ref, l.Ref))
+			alts = append(alts, l.is(ref))
 		case l.Fields != nil:
 			for _, x := range l.Fields {
 				if x == field {
-					alts = append(alts, eq(ref, l.Ref))
+					alts = append(alts, l.is(ref))
 				}
 			}
 		default:
 			if idx != "" {
-				alts = append(alts, and(eq(ref, l.Ref), "(<= "+l.Lo+" "+idx+")", "(< "+idx+" "+l.Hi+")"))
+				alts = append(alts, and(l.is(ref), "(<= "+l.Lo+" "+idx+")", "(< "+idx+" "+l.Hi+")"))
 			}
 		}
 	}
@@ -570,6 +589,9 @@ func (f *Frame) applyContract(x ssa.Instruction, con *Contract, fn *ssa.Function
 			default:
 				goal = vc.allowedRange(l)
 			}
+			if l.Cond != "" {
+				goal = implies(l.Cond, goal)
+			}
 			vc.oblige("frame", "call:"+short+":"+l.Src, at, goal, vc.P.line(x.Pos()), "callee modifies "+l.Src, vc.con.Serves)
 		}
 	}
@@ -616,19 +638,19 @@ func (f *Frame) applyContract(x ssa.Instruction, con *Contract, fn *ssa.Function
 }
 
 func (vc *VC) allowedRange(l modLoc) string {
-	top := vc.topFrame
-	alts := []string{"(>= " + l.Ref + " alloc0)"}
+	locs, bound := vc.frameCtx()
+	alts := []string{"(>= " + l.Ref + " " + bound + ")"}
 	if l.Lo != "" {
 		alts = append(alts, "(>= "+l.Lo+" "+l.Hi+")") // empty range: nothing is written
 	}
-	for _, m := range top.modLocs {
+	for _, m := range locs {
 		if m.Comp.Name != l.Comp.Name {
 			continue
 		}
 		if m.whole() {
-			alts = append(alts, eq(l.Ref, m.Ref))
+			alts = append(alts, m.is(l.Ref))
 		} else if m.Lo != "" && l.Lo != "" {
-			alts = append(alts, and(eq(l.Ref, m.Ref), "(<= "+m.Lo+" "+l.Lo+")", "(<= "+l.Hi+" "+m.Hi+")"))
+			alts = append(alts, and(m.is(l.Ref), "(<= "+m.Lo+" "+l.Lo+")", "(<= "+l.Hi+" "+m.Hi+")"))
 		}
 	}
 	return or(alts...)
